@@ -63,17 +63,57 @@ class Unit:
     def own(self, owner, owned):
         self.edges.setdefault(owner, set()).add(owned)
 
-    @staticmethod
-    def name_of(e):
-        """the name a value is known by: x, x[i] -> x, self.x -> self.x"""
+    def binding_scope(self, name_node):
+        """the function whose local variable an occurrence of a name refers to (lexical scoping, `nonlocal` respected): two nested
+        functions that both bind `d` have two different variables"""
+        if not hasattr(self, "_locals"):
+            self._locals = {}
+            for f in [self.fn] + [n for n in ast.walk(self.fn) if isinstance(n, (ast.FunctionDef, ast.AsyncFunctionDef, ast.Lambda)) and n is not self.fn]:
+                names = set()
+                a = f.args
+                names.update(x.arg for x in a.posonlyargs + a.args + a.kwonlyargs)
+                if a.vararg:
+                    names.add(a.vararg.arg)
+                if a.kwarg:
+                    names.add(a.kwarg.arg)
+                nonl = set()
+                body = f.body if isinstance(f.body, list) else [f.body]
+                stack = list(body)
+                while stack:
+                    n = stack.pop()
+                    if isinstance(n, (ast.FunctionDef, ast.AsyncFunctionDef)):
+                        names.add(n.name)
+                        continue
+                    if isinstance(n, (ast.Lambda, ast.ClassDef)):
+                        continue
+                    if isinstance(n, (ast.Nonlocal, ast.Global)):
+                        nonl.update(n.names)
+                    if isinstance(n, ast.Name) and isinstance(n.ctx, ast.Store):
+                        names.add(n.id)
+                    stack.extend(ast.iter_child_nodes(n))
+                self._locals[id(f)] = names - nonl
+        f = self.enclosing_fn(name_node)
+        while True:
+            if name_node.id in self._locals.get(id(f), ()):
+                return f
+            if f is self.fn:
+                return None
+            f = self.enclosing_fn(f)
+
+    def name_of(self, e):
+        """the name a value is known by: x, x[i] -> x, self.x -> self.x - qualified by the function that binds the variable"""
         if isinstance(e, ast.Name):
-            return e.id
+            f = self.binding_scope(e)
+            if f is None or f is self.fn:
+                return e.id
+            return f"{e.id}@{getattr(f, 'name', 'lambda')}:{f.lineno}"
         if isinstance(e, ast.Subscript):
-            return Unit.name_of(e.value)
+            return self.name_of(e.value)
         if isinstance(e, ast.Attribute) and isinstance(e.value, ast.Name):
-            return f"{e.value.id}.{e.attr}"
+            base = self.name_of(e.value)
+            return f"{base}.{e.attr}"
         if isinstance(e, ast.Starred):
-            return Unit.name_of(e.value)
+            return self.name_of(e.value)
         return None
 
     def analyse(self):
